@@ -13,6 +13,7 @@ MODULES = [
     "contracts.c_tzparse",
     "contracts.c_formats",
     "contracts.c_calendars",
+    "contracts.c_total",
 ]
 
 STANDINS = [
@@ -35,6 +36,7 @@ LEVELS = {
     "C11": "other",
     "C14": "other",
     "C15": "other",
+    "C02": "other",
 }
 
 _COMMON = [
